@@ -62,7 +62,7 @@ SvgFails(o, d) ==
       bgok == IF o.light.kind = "none" \/ o.draw_transparent THEN Len(fills) = 0
               ELSE Len(fills) = 1 /\ RectOf(fills[1].ops) # <<>>
                    /\ LET rc == RectOf(fills[1].ops) IN rc[1] <= 0 /\ rc[2] <= 0 /\ rc[1] + rc[3] >= cells * U - tol /\ rc[2] + rc[4] >= cells * U - tol
-                   /\ Shows(fills[1].rgba, ColourOf(o.light)) /\ Near(fills[1].transform, o.scale_micro, tol)
+                   /\ ShowsTol(fills[1].rgba, ColourOf(o.light), 2) /\ Near(fills[1].transform, o.scale_micro, tol)
       sizeok == IF o.omitsize THEN d.width = -1 /\ d.height = -1 /\ d.viewbox # <<>>
                 ELSE Near(d.width, wantW, tol) /\ Near(d.height, wantW, tol) /\ d.unit = o.unit /\ ((o.unit # "") = (d.viewbox # <<>>))
       vbok == d.viewbox = <<>> \/ (d.viewbox[1] = 0 /\ d.viewbox[2] = 0 /\ Near(d.viewbox[3], wantW, tol) /\ Near(d.viewbox[4], wantW, tol))
@@ -75,7 +75,7 @@ SvgFails(o, d) ==
           [] c = "cover_exact" -> got # DarkCells(M, b)
           [] c = "every_module_once" -> Len(allcells) # Cardinality(got)
           [] c = "inside_page" -> \E p \in got : p[1] < 0 \/ p[1] >= cells \/ p[2] < 0 \/ p[2] >= cells
-          [] c = "dark_colour" -> \E i \in 1..Len(strokes) : ~Shows(strokes[i].rgba, wd)
+          [] c = "dark_colour" -> \E i \in 1..Len(strokes) : ~ShowsTol(strokes[i].rgba, wd, 2)
           [] c = "background" -> ~bgok
           [] c = "xmldecl" -> d.xmldecl # o.xmldecl
           [] c = "svgns" -> d.svgns # o.svgns
@@ -236,7 +236,17 @@ TypedBadCells(o) ==
   IN {<<y, x>> \in (0..w-1) \X (0..w-1) : ~Shows(cc[y][x], WantColour(o, g, y, x))}
 
 \* named deviations (known findings)
+\* Dev_BlackWhiteIntAlpha1Opaque (KF-C10-1): writers._color_is_black / _color_is_white compare with (0, 0, 0, 1.0) / (255, 255, 255, 1.0);
+\* as 1 == 1.0 the nearly transparent (0, 0, 0, 1) and (255, 255, 255, 1) are written as opaque #000 / #fff in SVG.  The deviation
+\* explains an observation iff exactly the colour clauses fail and every clause holds once these colours are read as opaque.
+IntAlpha1BW(c) == c.kind = "tuple" /\ (c.v = <<0, 0, 0, 1>> \/ c.v = <<255, 255, 255, 1>>)
+ReadOpaque(c) == IF IntAlpha1BW(c) THEN [c EXCEPT !.v = SubSeq(@, 1, 3)] ELSE c
+DevBlackWhiteIntAlpha1(o, fails) ==
+  /\ o.family = "vector" /\ o.kind = "svg" /\ fails # {} /\ fails \subseteq {"dark_colour", "background"}
+  /\ (IntAlpha1BW(o.dark) \/ IntAlpha1BW(o.light))
+  /\ VectorFails([o EXCEPT !.dark = ReadOpaque(@), !.light = ReadOpaque(@)]) = {}
 DevsOf(o, fails) ==
+  {x \in {"Dev_BlackWhiteIntAlpha1Opaque"} : DevBlackWhiteIntAlpha1(o, fails)} \cup
   {x \in {"Dev_FormatTypeAt_8_nminus9"} :
       /\ o.family \in {"iter", "typed"} /\ fails # {} /\ Len(o.matrix) >= 21
       /\ IF o.family = "iter" THEN fails = {"types"} /\
